@@ -85,7 +85,7 @@ func vp_C07_create() {
 	vpReach("rejected", !got)
 }
 
-// vp:check C07 both configs=version:1|6|10;change:user-level|ban-level|user-removed|bad-user-id|nothing K=12 timeout=900
+// vp:check C07 both configs=version:1|6|10;change:user-level|ban-level|user-removed|bad-user-id|nothing|event-level|event-level-removed|event-level-added K=12 timeout=900
 // vp_C07_power_levels: an m.room.power_levels event goes through Allowed exactly as the specification's rule for it
 // says: the sender is joined and has the level required to send it (state_default here); every key of `users` is a
 // user ID; a threshold may be changed only if its old and its new value are at most the sender's level; another
@@ -99,14 +99,36 @@ func vp_C07_power_levels() {
 	a, b := vpNondetI64("old.alice"), vpNondetI64("old.bob")
 	sd, ban := vpNondetI64("old.state_default"), vpNondetI64("old.ban")
 	ud := vpNondetI64("old.users_default")
-	oldPL := vpJObj("users", vpJObj(vpAlice, a, vpBob, b), "users_default", ud, "state_default", sd, "ban", ban)
+	// a per-event-type threshold for m.room.join_rules (present in the old content unless it is being added)
+	ev0, ed := vpNondetI64("old.events.join_rules"), vpNondetI64("old.events_default")
+	change := vpConfig("change")
+	oldEvents := vpJObj(spec.MRoomJoinRules, ev0)
+	if change == "event-level-added" {
+		oldEvents = vpJObj()
+	}
+	oldPL := vpJObj("users", vpJObj(vpAlice, a, vpBob, b), "users_default", ud, "state_default", sd, "ban", ban, "events", oldEvents, "events_default", ed)
 	_ = auth.AddEvent(vpMkEvent(ver, "$pl:x", room, vpCarol, spec.MRoomPowerLevels, vpStrPtr(""), oldPL))
 	joined := vpNondetBool("sender_joined")
 	if joined {
 		_ = auth.AddEvent(vpMkEvent(ver, "$ma:x", room, vpAlice, spec.MRoomMember, vpStrPtr(vpAlice), vpJObj("membership", spec.Join)))
 	}
-	change := vpConfig("change")
 	nb, nban := b, ban
+	newEvents := oldEvents
+	// effective old / new threshold of m.room.join_rules (a state event: the library compares per-type levels using
+	// the non-state default - departure D3)
+	oldEff, newEff := ev0, ev0
+	switch change {
+	case "event-level":
+		newEff = vpNondetI64("new.events.join_rules")
+		newEvents = vpJObj(spec.MRoomJoinRules, newEff)
+	case "event-level-removed":
+		newEff = ed
+		newEvents = vpJObj()
+	case "event-level-added":
+		oldEff = ed
+		newEff = vpNondetI64("new.events.join_rules")
+		newEvents = vpJObj(spec.MRoomJoinRules, newEff)
+	}
 	users := vpJObj(vpAlice, a, vpBob, b)
 	switch change {
 	case "user-level":
@@ -120,7 +142,7 @@ func vp_C07_power_levels() {
 	case "bad-user-id":
 		users = vpJObj(vpAlice, a, vpBob, b, "not-a-user-id", int64(0))
 	}
-	newPL := vpJObj("users", users, "users_default", ud, "state_default", sd, "ban", nban)
+	newPL := vpJObj("users", users, "users_default", ud, "state_default", sd, "ban", nban, "events", newEvents, "events_default", ed)
 	ev := vpMkEvent(ver, "$npl:x", room, vpAlice, spec.MRoomPowerLevels, vpStrPtr(""), newPL)
 	got := Allowed(ev, auth, vpUserIDForSender) == nil
 
@@ -130,6 +152,9 @@ func vp_C07_power_levels() {
 	}
 	if nb != b {
 		want = want && b < a && nb <= a
+	}
+	if newEff != oldEff {
+		want = want && oldEff <= a && newEff <= a
 	}
 	vpAssert("power-levels-verdict", got == want)
 	vpReach("accepted", got)
